@@ -18,8 +18,33 @@ NOTE_SEM = ("Trusted base: TLC's evaluation of specs/Sem.tla (reference semantic
 GAUSS_REL = {"C03": "marginal", "C04": "product", "C07": "conjugate"}
 
 
+def _fold_model_hook(tier):
+    """C02, Tier M: the folding / address-book mechanism model (FoldSys.tla) must refine the
+    unfolded semantics for the shortcut condition the code uses."""
+    from . import tlcrun  # pylint: disable=import-outside-toplevel
+
+    def run_hook(rep):
+        cfg = "FoldSys_exact.cfg" if tier == "quick" else "FoldSys_exact5.cfg"
+        try:
+            _, stats = tlcrun.run_tlc("FoldSys.tla", cfg, "C02_foldsys", coverage=False, timeout=3000)
+        except tlcrun.TLCError as e:
+            rep.machinery_errors.append(str(e)[-800:])
+            return
+        rep.add_tlc("mechanism_model_FoldSys", stats)
+        if stats.get("invariant_violated"):
+            rep.machinery_errors.append(
+                f"mechanism model FoldSys.tla: invariant {stats['invariant_violated']} violated "
+                "(a Tier-M counterexample is not a verdict: see DESIGN.md 5.3)")
+        rep.extra["mechanism_model"] = {"module": "FoldSys.tla", "config": cfg,
+                                        "invariants": ["FoldRefines", "Partition"],
+                                        "distinct_states": stats.get("distinct")}
+    return run_hook
+
+
 def _sem_run(pid, tier, seed, rule, assumptions):
     hook = None
+    if pid == "C02":
+        hook = _fold_model_hook(tier)
     if pid in GAUSS_REL:
         from . import gauss_props  # pylint: disable=import-outside-toplevel
         hook = gauss_props.hook(pid, tier, seed, GAUSS_REL[pid])
